@@ -123,7 +123,9 @@ def check(model, rep, tier):
     h = cls.methods.get(hname)
     if h is None:
       raise core.AnalysisError('%s not found' % hname)
-    g = pycfg.CFG(h.node)
+    # (private helpers expanded: the visit and the naming may sit in a helper)
+    hv = h.view(keep=('_ensure_fields_in_anf', '_ensure_node_in_anf'))
+    g = pycfg.CFG(hv)
     gv = [i for i in range(len(g.nodes)) if any(
         core.norm(c.func) == 'self.generic_visit' for c in pycfg.calls_at(g, i))]
     ens = [i for i in range(len(g.nodes)) if any(
@@ -145,7 +147,7 @@ def check(model, rep, tier):
             and core.norm(t.comparators[0]) == core.norm(
                 g.nodes[cnt[0]][1].targets[0]) if cnt else False
       else:
-        asserts = [a for a in h.node.body if isinstance(a, ast.Assert)]
+        asserts = [a for a in hv.body if isinstance(a, ast.Assert)]
         ok = ok and core.norm(t) == 'self._pending_statements' and bool(asserts)
       ok = ok and _branch_raises(g, tests[0], 'T')
     rep.check(ok, 'ANF-LAZY', '%s:%s:detects-extraction' % (ANF, hname),
